@@ -578,7 +578,13 @@ def _batch(ctx, pool, progs, tier, rnd, acc):
                                                                       _fmt(d["hist"]) if "hist" in d else [d["u"], d["v"]],
                                                                       progs1.render(prog, with_messages=False)),
                               {"prog": prog, "mode": mode, "dep": d, "sig": _sig(prog, mode, ["-"], ["-"])})
-            if o["hang"]:
+            if o["hang"] and "while " in progs1.render(prog, with_messages=False):
+                # a while loop whose body can complete without an event spins inside the interpreter (silent divergence): the
+                # statement says nothing about such programs; the specification drops them when the divergence is reachable
+                # within its bound, this one was only reached by the longer histories of the second pass
+                ctx.note("not judged (binding %s did not come back, program with a while loop): %s" % (mode, o["hang"]))
+                acc["bad"] += 1
+            elif o["hang"]:
                 ctx.violation("no-decision", "binding %s: %s; program:\n%s" % (mode, o["hang"], progs1.render(prog, with_messages=False)),
                               {"prog": prog, "mode": mode, "hang": o["hang"], "sig": _sig(prog, mode, ["-"], ["H"])})
     # samples
